@@ -677,7 +677,9 @@ pub fn run(ctx: &Ctx) -> Value {
             let mut pq = dense(&m);
             let sp = sparse(50_000);
             pq.instants.extend(sp.iter()); pq.walls.extend(sp.iter()); pq.trips.extend(sp.iter().step_by(2));
-            for e in public_events(&format!(":{}/{}", ZONEINFO, f.name), &m, &pq) { emit(&mut tw, &zc, e); pub_events += 1; }
+            // every spelling of a zone file in TZ, in rotation: `:` + absolute path, absolute path, `:` + name, name (relative to the zoneinfo directory)
+            let tzv = match public_done % 4 { 1 => format!(":{}/{}", ZONEINFO, f.name), 2 => format!("{}/{}", ZONEINFO, f.name), 3 => format!(":{}", f.name), _ => f.name.clone() };
+            for e in public_events(&tzv, &m, &pq) { emit(&mut tw, &zc, e); pub_events += 1; }
         }
     }
     // ---- 1b. synthetic files: shapes no system file has (a DST type first, one or two transitions, all types DST) ---------
